@@ -62,7 +62,9 @@ def monitor (s : Scn) (out : String) : String := Id.run do
           else if revNum cur.rev ≤ ow.rev then
             return s!"bad refusal-not-reported {keyStr k}"
   -- 2b. single-object phase: a permitted adoption of an admissible object must not end in an error
-  if io.outcome == "err" then
+  --     (unless the preflight checks could not be evaluated at all in this pass: the REST mapper's
+  --     lookup of the object's kind failed with a transient error — the pass returns that error)
+  if io.outcome == "err" && !(objs.any fun p => cfg.mapErr p.kind) then
     match objs with
     | [p] =>
       match st0.get (keyOf cfg ow p) with
